@@ -86,9 +86,9 @@ def parse_missing(warnings, sheet):
 
 def c20_translations(s0: bool, s1: bool, s2: bool, s3: bool, s4: bool, s5: bool, s6: bool, s7: bool, c0: bool, c1: bool, c2: bool, rot: int, or_other: bool) -> bool:
     """
-    pre: s0 or s1
-    pre: 0 <= rot <= 7
-    post: _ == True
+    vpre: s0 or s1
+    vpre: 0 <= rot <= 7
+    vpost: _ == True
     """
     sf = (s0, s1, s2, s3, s4, s5, s6, s7)
     cf = (c0, c1, c2)
@@ -262,8 +262,8 @@ ob_e2(
 # ---- c: misspellings --------------------------------------------------------------------------
 def c20_misspell(n: int, underscore: bool, c0: int, c1: int, c2: int, c3: int) -> bool:
     """
-    pre: 97 <= c0 <= 122 and 97 <= c1 <= 122 and 97 <= c2 <= 122 and 97 <= c3 <= 122
-    post: _ == True
+    vpre: 97 <= c0 <= 122 and 97 <= c1 <= 122 and 97 <= c2 <= 122 and 97 <= c3 <= 122
+    vpost: _ == True
     """
     from pyxform.validators.pyxform.sheet_misspellings import find_sheet_misspellings
 
@@ -309,9 +309,9 @@ specialise(
 # ---- d: row-level triggers ---------------------------------------------------------------------
 def c20_row_triggers(trig: int, pos: int, blanks: int, l0: int, l1: int) -> bool:
     """
-    pre: 0 <= pos <= 2 and 0 <= blanks <= 2
-    pre: 33 <= l0 <= 126 and l0 != 36 and 33 <= l1 <= 126 and l1 != 36
-    post: _ == True
+    vpre: 0 <= pos <= 2 and 0 <= blanks <= 2
+    vpre: 33 <= l0 <= 126 and l0 != 36 and 33 <= l1 <= 126 and l1 != 36
+    vpost: _ == True
     """
     lab = S(l0, l1)
     base = [{"type": "text", "name": "a", "label": lab}, {"type": "integer", "name": "b", "label": "B"}]
@@ -359,9 +359,9 @@ specialise(
 # ---- e: IANA language codes ----------------------------------------------------------------------
 def c20_iana(n: int, code: int, c0: int, c1: int, c2: int) -> bool:
     """
-    pre: 0 <= code <= 3
-    pre: 65 <= c0 <= 122 and 65 <= c1 <= 122 and 65 <= c2 <= 122
-    post: _ == True
+    vpre: 0 <= code <= 3
+    vpre: 65 <= c0 <= 122 and 65 <= c1 <= 122 and 65 <= c2 <= 122
+    vpost: _ == True
     """
     from pyxform.validators.pyxform.iana_subtags.validation import get_languages_with_bad_tags
 
